@@ -615,9 +615,15 @@ func (e *Eng) siteAsserts(fr *Frame, kind, name string, pos token.Pos, st *State
 			continue
 		}
 		env := e.siteEnv(fr)
+		// the callee's parameter names denote the actual arguments at this site (they shadow locals of the
+		// same name; the caller's own parameters keep priority and the arguments stay reachable as $name)
+		own := map[string]bool{}
+		for _, p := range fr.fn.Params {
+			own[p.Name()] = true
+		}
 		for k, v := range extra {
 			env.vars["$"+k] = v
-			if _, exists := env.vars[k]; !exists {
+			if !own[k] {
 				env.vars[k] = v
 			}
 		}
@@ -829,6 +835,10 @@ func (e *Eng) resolveRegionPattern(p string) []string {
 	if strings.HasPrefix(p, "$") {
 		if p == "$nothing" {
 			return nil
+		}
+		if p == chanClosedRegion {
+			e.regInit(chanClosedRegion, "(Array Int Bool)")
+			return []string{chanClosedRegion}
 		}
 		gt, ok := e.spec.Ghosts[p]
 		if !ok {
